@@ -768,6 +768,123 @@ harness! {
 }
 
 // ---------------------------------------------------------------------------
+// bool
+
+harness! {
+    /// kind=bounded tier=quick bound="bool: every valid UTF-8 string<=6 bytes (whole string), <=7 bytes (prefix parsing)"
+    #[kani::unwind(10)]
+    #[kani::stub(konst_kernel::string::non_char_boundary_panic, crate::hlib::stub_non_char_boundary_panic)]
+    fn c12_bool(s) {
+        let bs = BStr::<7>::any(s);
+        let h = bs.as_str();
+        let hb = h.as_bytes();
+        let t = ref_occurs_at(hb, b"true", 0);
+        let f = ref_occurs_at(hb, b"false", 0);
+        // prefix semantics of Parser::parse_bool
+        match Parser::new(h).parse_bool() {
+            Ok((v, p)) => {
+                chk!(s, t || f, "C12.parser_parse_bool.err_unless_true_or_false_prefix");
+                chk!(s, v == t, "C12.parser_parse_bool.value");
+                chk!(s, is_subslice_at(hb, p.remainder().as_bytes(), if t { 4 } else { 5 }, hb.len()), "C12.parser_parse_bool.remainder_is_unconsumed_rest");
+            }
+            Err(e) => {
+                chk!(s, !t && !f, "C12.parser_parse_bool.ok_on_true_or_false_prefix");
+                chk!(s, e.offset() == 0, "C12.parser_parse_bool.error_at_start_nothing_consumed");
+            }
+        }
+        // whole-string semantics == str::parse::<bool>
+        if hb.len() <= 6 {
+            let k = prim::parse_bool(h);
+            let e = h.parse::<bool>();
+            chk!(s, k.is_ok() == e.is_ok(), "C12.primitive_parse_bool.ok_iff_std_ok");
+            chk!(s, match (k, e) { (Ok(a), Ok(b)) => a == b, _ => true }, "C12.primitive_parse_bool.same_value_as_std");
+        }
+        cov!(s, f && hb.len() == 7 && hb[5] >= 0xC2, "C12.cover.bool_false_then_multibyte");
+        cov!(s, t && hb.len() == 4 && prim::parse_bool(h) == Ok(true), "C12.cover.bool_true_whole");
+        cov!(s, f && hb.len() == 5 && prim::parse_bool(h) == Ok(false), "C12.cover.bool_false_whole");
+        cov!(s, t && hb.len() == 5 && prim::parse_bool(h).is_err(), "C12.cover.bool_true_with_trailing_byte_rejected");
+        cov!(s, hb.len() == 4 && hb[0] == b'T' && hb[1] == b'r', "C12.cover.bool_capitalised");
+    }
+}
+
+// ---------------------------------------------------------------------------
+// HasParser / StdParser (parsing/get_parser.rs) delegate to the Parser methods
+
+fn check_delegation<T: KInt, S: Src>(s: &mut S, h: &str) {
+    let a = T::prefix(Parser::new(h));
+    let b = T::via_has_parser(Parser::new(h));
+    chk!(s, match (a, b) {
+        (Ok((x, p)), Ok((y, q))) => x == y && same_str(p.remainder(), q.remainder()) && p.start_offset() == q.start_offset(),
+        (Err(e), Err(f)) => e.offset() == f.offset(),
+        _ => false,
+    }, "C12.std_parser.parse_with_is_the_parser_method");
+}
+
+harness! {
+    /// kind=bounded tier=quick bound="StdParser::<T>::parse_with, T in {u8,i8,u16,i16,bool}: every valid UTF-8 string<=5 bytes"
+    #[kani::unwind(9)]
+    #[kani::stub(konst_kernel::string::non_char_boundary_panic, crate::hlib::stub_non_char_boundary_panic)]
+    fn c12_has_parser_small(s) {
+        let bs = BStr::<5>::any(s);
+        let h = bs.as_str();
+        match s.upto(4) {
+            0 => check_delegation::<u8, _>(s, h),
+            1 => check_delegation::<i8, _>(s, h),
+            2 => check_delegation::<u16, _>(s, h),
+            3 => check_delegation::<i16, _>(s, h),
+            _ => {
+                let a = Parser::new(h).parse_bool();
+                let b = <<bool as HasParser>::Parser>::parse_with(Parser::new(h));
+                chk!(s, match (a, b) {
+                    (Ok((x, p)), Ok((y, q))) => x == y && same_str(p.remainder(), q.remainder()),
+                    (Err(e), Err(f)) => e.offset() == f.offset(),
+                    _ => false,
+                }, "C12.std_parser.parse_with_is_parse_bool");
+            }
+        }
+        cov!(s, h.len() == 3 && Parser::new(h).parse_i8().is_ok(), "C12.cover.has_parser_small_ok");
+        cov!(s, h.len() == 3 && Parser::new(h).parse_u8().is_err(), "C12.cover.has_parser_small_err");
+        cov!(s, h.len() == 5 && Parser::new(h).parse_bool().is_ok(), "C12.cover.has_parser_bool_ok");
+    }
+}
+
+harness! {
+    /// kind=bounded tier=quick bound="StdParser::<T>::parse_with, T in {u32,i32,u64,i64}: every valid UTF-8 string<=3 bytes"
+    #[kani::unwind(7)]
+    #[kani::stub(konst_kernel::string::non_char_boundary_panic, crate::hlib::stub_non_char_boundary_panic)]
+    fn c12_has_parser_mid(s) {
+        let bs = BStr::<3>::any(s);
+        let h = bs.as_str();
+        match s.upto(3) {
+            0 => check_delegation::<u32, _>(s, h),
+            1 => check_delegation::<i32, _>(s, h),
+            2 => check_delegation::<u64, _>(s, h),
+            _ => check_delegation::<i64, _>(s, h),
+        }
+        cov!(s, h.len() == 3 && Parser::new(h).parse_i32().is_ok(), "C12.cover.has_parser_mid_ok");
+        cov!(s, h.len() == 3 && Parser::new(h).parse_u32().is_err(), "C12.cover.has_parser_mid_err");
+    }
+}
+
+harness! {
+    /// kind=bounded tier=quick bound="StdParser::<T>::parse_with, T in {u128,i128,usize,isize}: every valid UTF-8 string<=3 bytes"
+    #[kani::unwind(7)]
+    #[kani::stub(konst_kernel::string::non_char_boundary_panic, crate::hlib::stub_non_char_boundary_panic)]
+    fn c12_has_parser_big(s) {
+        let bs = BStr::<3>::any(s);
+        let h = bs.as_str();
+        match s.upto(3) {
+            0 => check_delegation::<u128, _>(s, h),
+            1 => check_delegation::<i128, _>(s, h),
+            2 => check_delegation::<usize, _>(s, h),
+            _ => check_delegation::<isize, _>(s, h),
+        }
+        cov!(s, h.len() == 3 && Parser::new(h).parse_i128().is_ok(), "C12.cover.has_parser_big_ok");
+        cov!(s, h.len() == 3 && Parser::new(h).parse_u128().is_err(), "C12.cover.has_parser_big_err");
+    }
+}
+
+// ---------------------------------------------------------------------------
 // (kept at the end of the file: the runner's template discovery scans forward from every `macro_rules!`)
 macro_rules! c12_impl_kint {
     ($($t:ty, $signed:literal, $f:ident;)*) => {$(
